@@ -1732,6 +1732,9 @@ pub fn do_connect<'a, 'b>(session: &'a mut Session<'b>, cancellable: bool) -> Co
         }
         o
     });
+    // (the failure arms below look at the session again; the borrow checker cannot see that the
+    // borrow handed to connect() has ended there, because the success arm returns it)
+    let sp: *const Session<'b> = session;
     let r = exec(session.connect(io), opts);
     match r {
         None => {
@@ -1739,6 +1742,9 @@ pub fn do_connect<'a, 'b>(session: &'a mut Session<'b>, cancellable: bool) -> Co
                 check_result(w, "connect", &Res::Cancelled, true, false);
                 close_conn(w, "connect cancelled");
             });
+            // C18: a connect that did not succeed replaces no session - every handle still says
+            // what it said before (unless a CONNACK that did replace the session was consumed)
+            check_handles(unsafe { &*sp });
             ConnectOutcome::Failed(Res::Cancelled)
         }
         Some(Err(e)) => {
@@ -1747,6 +1753,7 @@ pub fn do_connect<'a, 'b>(session: &'a mut Session<'b>, cancellable: bool) -> Co
                 check_result(w, "connect", &res, true, false);
                 close_conn(w, "connect failed");
             });
+            check_handles(unsafe { &*sp });
             ConnectOutcome::Failed(res)
         }
         Some(Ok(conn)) => {
